@@ -198,7 +198,7 @@ def run_unit(repo, contracts_dir, unit, workdir, rlimit=30, threads=8, timeout=9
         spans_d = [s for s in d.get('spans', []) if s.get('file_name', '').endswith(os.path.basename(gen))]
         prim = [s for s in spans_d if s.get('is_primary')] or spans_d
         # the function the failure belongs to: the one containing the *last* span (exit point) or any span
-        lines_ = [s['line_start'] for s in spans_d]
+        lines_ = [s['line_start'] for s in prim] + [s['line_start'] for s in spans_d if s not in prim]
         owner = None
         for ln_ in lines_:
             for ident, fd in res.functions.items():
